@@ -348,11 +348,26 @@ def real_assign(env, lhs, rhs):
                     for a, b in zip(o.pins, i.pins))
     comp = mk_composer()
 
+    def pins_of(defn, cabs):
+        inst = defn.children[0]
+        o = next(x for x in inst.reference.ports if x.name == 'o')
+        i = next(x for x in inst.reference.ports if x.name == 'i')
+        return ' '.join('%s=%s' % (tok_of_real_wire(cabs, inst.pins[a].wire), tok_of_real_wire(cabs, inst.pins[b].wire))
+                        for a, b in zip(o.pins, i.pins))
+
     def run():
         comp._write_assignment(inst)
         t = comp.file.getvalue().strip()
         assert t.startswith('assign ') and t.endswith(';'), t
-        return t[len('assign '):-1].replace(' ', '')
+        # the real reader on the statement just written, in a fresh copy of the module
+        d2, cables2 = build_env(env)
+        p2 = mk_parser(d2, t)
+        try:
+            p2.connect_wires_for_assign(*p2.parse_assign())
+            back = pins_of(d2, cables2)
+        except (IndexError, AssertionError):
+            back = 'error'
+        return t[len('assign '):-1].replace(' ', '') + ' | ' + back
     return pins + ' | ' + outcome(run)
 
 
